@@ -18,6 +18,18 @@ pub trait It {
     fn len(&self) -> usize;
     fn size_hint(&self) -> (usize, Option<usize>);
     fn count(self: Box<Self>) -> usize;
+    // ---- the other Iterator / DoubleEndedIterator methods and adaptors: std derives them from
+    // `next` / `next_back`, but an iterator may override any of them (`nth_back` is what
+    // `rev().skip(n)` and `rev().step_by(k)` call), so they belong to "forward/backward iteration"
+    fn nth(&mut self, n: usize) -> Option<Item>;
+    fn nth_back(&mut self, n: usize) -> Option<Item>;
+    fn last(self: Box<Self>) -> Option<Item>;
+    /// everything left, through `Iterator::fold`
+    fn fold_all(self: Box<Self>) -> Vec<Item>;
+    /// everything left, back to front, through `DoubleEndedIterator::rfold`
+    fn rfold_all(self: Box<Self>) -> Vec<Item>;
+    /// `rev()`, then optionally `skip(n)` / `step_by(k)`, collected
+    fn adapt_all(self: Box<Self>, rev: bool, skip: usize, step: usize) -> Vec<Item>;
     /// Overwrite the element that the next `next`/`next_back` yields (mutable
     /// iterators only; `None` for read-only ones).
     fn next_set(&mut self, _new: Item) -> Option<Option<Item>> {
@@ -51,6 +63,48 @@ where
     fn count(self: Box<Self>) -> usize {
         self.0.count()
     }
+    fn nth(&mut self, n: usize) -> Option<Item> {
+        self.0.nth(n).map(&self.1)
+    }
+    fn nth_back(&mut self, n: usize) -> Option<Item> {
+        self.0.nth_back(n).map(&self.1)
+    }
+    fn last(self: Box<Self>) -> Option<Item> {
+        let ReadIt(it, f) = *self;
+        it.last().map(f)
+    }
+    fn fold_all(self: Box<Self>) -> Vec<Item> {
+        let ReadIt(it, f) = *self;
+        it.fold(Vec::new(), |mut v, x| {
+            v.push(f(x));
+            v
+        })
+    }
+    fn rfold_all(self: Box<Self>) -> Vec<Item> {
+        let ReadIt(it, f) = *self;
+        it.rfold(Vec::new(), |mut v, x| {
+            v.push(f(x));
+            v
+        })
+    }
+    fn adapt_all(self: Box<Self>, rev: bool, skip: usize, step: usize) -> Vec<Item> {
+        let ReadIt(it, f) = *self;
+        adapt(it, rev, skip, step).into_iter().map(f).collect()
+    }
+}
+
+/// `rev` / `skip` / `step_by` adaptors on a real iterator, collected.
+fn adapt<I: DoubleEndedIterator + ExactSizeIterator>(it: I, rev: bool, skip: usize, step: usize) -> Vec<I::Item> {
+    match (rev, skip > 0, step > 1) {
+        (false, false, false) => it.collect(),
+        (false, true, false) => it.skip(skip).collect(),
+        (false, false, true) => it.step_by(step).collect(),
+        (false, true, true) => it.skip(skip).step_by(step).collect(),
+        (true, false, false) => it.rev().collect(),
+        (true, true, false) => it.rev().skip(skip).collect(),
+        (true, false, true) => it.rev().step_by(step).collect(),
+        (true, true, true) => it.rev().skip(skip).step_by(step).collect(),
+    }
 }
 
 /// Wraps a real iterator over mutable handles: `R` reads a handle, `W` writes it.
@@ -76,6 +130,34 @@ where
     }
     fn count(self: Box<Self>) -> usize {
         self.0.count()
+    }
+    fn nth(&mut self, n: usize) -> Option<Item> {
+        self.0.nth(n).map(|h| (self.1)(&h))
+    }
+    fn nth_back(&mut self, n: usize) -> Option<Item> {
+        self.0.nth_back(n).map(|h| (self.1)(&h))
+    }
+    fn last(self: Box<Self>) -> Option<Item> {
+        let WriteIt(it, r, _) = *self;
+        it.last().map(|h| r(&h))
+    }
+    fn fold_all(self: Box<Self>) -> Vec<Item> {
+        let WriteIt(it, r, _) = *self;
+        it.fold(Vec::new(), |mut v, h| {
+            v.push(r(&h));
+            v
+        })
+    }
+    fn rfold_all(self: Box<Self>) -> Vec<Item> {
+        let WriteIt(it, r, _) = *self;
+        it.rfold(Vec::new(), |mut v, h| {
+            v.push(r(&h));
+            v
+        })
+    }
+    fn adapt_all(self: Box<Self>, rev: bool, skip: usize, step: usize) -> Vec<Item> {
+        let WriteIt(it, r, _) = *self;
+        adapt(it, rev, skip, step).into_iter().map(|h| r(&h)).collect()
     }
     fn next_set(&mut self, new: Item) -> Option<Option<Item>> {
         Some(self.0.next().map(|mut h| {
